@@ -16,7 +16,7 @@ import translate as T
 import translate_fn as TF
 from translate import Unsupported, function_body
 
-ROOT = T.ROOT; GEN = T.GEN; RNG = '/repo/src/range.rs'
+ROOT = T.ROOT; GEN = T.GEN; RNG = os.path.join(os.environ.get('VERIF_REPO', '/repo'), 'src', 'range.rs')
 
 # ------------------------------------------------------------------ parser for combinator expressions and the imperative style
 class PP(TF.PF):
